@@ -10,9 +10,13 @@ CONSTANTS
   InitMs = 3
   InitRems = {0}
   NTerms = 3
+  ChainPeriods = {2}
+  Starts = {1, 2}
+  NodeAts = {"genesis", "tip"}
   KeepHist = FALSE
   KF_TdposPreInit = FALSE
   KF_XpoaNegativeTs = FALSE
-INVARIANTS TypeOK OneProducer NothingBeforeOrigin FirstSlot SlotOrder SlotContiguous TurnAdjacent SlotLength SlotSpacing FirstSlotEnd TurnComplete TermComplete TermPeriodic Shares OneMsPeriod SingleOK
+  KF_TdposTermSetOffset = FALSE
+INVARIANTS TypeOK OneProducer SetInForce Bootstrap NothingBeforeOrigin FirstSlot SlotOrder SlotContiguous TurnAdjacent SlotLength SlotSpacing FirstSlotEnd TurnComplete TermComplete TermPeriodic Shares OneMsPeriod SingleOK
 VIEW View
 CHECK_DEADLOCK FALSE
